@@ -80,7 +80,8 @@ def gen_case(run_seed, tier):
     w["evo"] = 0.3
     w["hyb"] = 0.3
     w["alt"] = 0.3
-    w["trs"] = 0.5
+    w["trs"] = 0.8
+    w["metric"] = 1.6
     for k in KINDS:
         if sz.random() < 0.15:
             w[k] = 0.0
@@ -91,7 +92,7 @@ def gen_case(run_seed, tier):
         k = wl.choices(KINDS, weights=[w[x] for x in KINDS])[0]
         hist.append([k] + [wl.randrange(1000) for _ in range(5)])
     return {"ne": ne, "np": np_, "programs": progs, "target": [tg[0], [list(e) for e in tg[1]]],
-            "target_reps": [sz.choice(["g", "s", "dm", "s-"]) for _ in range(sz.randint(1, 2))],
+            "target_reps": [sz.choice(["g", "s", "dm", "s-", "s-"]) for _ in range(sz.randint(1, 2))],
             "with_trs_circuit": sz.random() < 0.4 and np_ >= 2, "history": hist, "lseed": sz.randrange(10**9),
             "shuffle_nodes": sz.random() < 0.4}
 
@@ -283,19 +284,22 @@ def noise_map(rng):
 
 
 def make_signed_target(n, edges, seed):
-    """a stabilizer target that is not a graph state: |G> with Pauli Z/X applied to some qubits (minus-sign generators)"""
-    import graphiq.backends.stabilizer.functions.transformation as tr
-    from graphiq.backends.stabilizer.functions.rep_conversion import get_clifford_tableau_from_graph
+    """a stabilizer target that is not a graph state in graph form: the state compiled from a short seeded circuit on n
+    photons (generators in the order the compile left them, some with a minus sign)"""
+    from graphiq.circuit.circuit_dag import CircuitDAG
 
-    tab = get_clifford_tableau_from_graph(graphs.to_nx((n, edges)))
     rr = random.Random(seed)
-    for q in range(n):
-        g = rr.choice(["I", "Z", "X", "Z"])
-        if g == "Z":
-            tab = tr.z_gate(tab, q)
-        elif g == "X":
-            tab = tr.x_gate(tab, q)
-    return QuantumState(tab, rep_type="s")
+    c0 = CircuitDAG(n_emitter=0, n_photon=n, n_classical=0)
+    for _ in range(2 + 2 * n):
+        q = rr.randrange(n)
+        k = rr.choice(["H", "P", "X", "Z", "CNOT", "X"])
+        if k == "CNOT":
+            if n < 2:
+                continue
+            c0.add(gq.make_op(["g2", "CNOT", "p", q, "p", rr.choice([i for i in range(n) if i != q])]))
+        else:
+            c0.add(gq.make_op(["g1", k, "p", q]))
+    return StabilizerCompiler().compile(c0)
 
 
 def make_target(n, edges, rep, order_seed=None):
